@@ -10,6 +10,8 @@
                    path of delete lowers exactly one count, the one of the section the record was in *before* the splice moved the
                    section boundaries (C09.d-delete = the delete-protocol automaton of C11.a)
                    (delete <-> rrcount_dec is decided under C11.a)
+  C09.g refusal    (the C10.a automaton on insert_rr / insert_rr_from_string) a refused insertion returns before any byte, count or offset
+                   of the object has been touched
   C09.e pointer-free  insert_rr, set_raw_name and delete resize the buffer / overwrite name bytes only on paths where maybe_compressed is
                    known to be false (after the normalisation), so no other record's compression pointer can be invalidated
   C09.a geometry   (E4, rules/geometry.py) the byte moves of resize_rr (both directions) and insert_rr satisfy the preconditions of
@@ -183,12 +185,12 @@ class PointerFreeAu(Automaton):
         return q
 
 
-def pointer_free_rule(ctx, facts, cfg):
+def pointer_free_rule(ctx, facts, cfg, rid='C09.e', entries=None, floor=5):
     from analysis.pkt import PacketEvents
-    rid = 'C09.e'
     pe = PacketEvents(facts)
     flow = PathFlow(facts, PointerFreeAu(facts, pe))
-    entries = ['parsed_packet::ParsedPacket::insert_rr'] + facts.inst_keys('rr_iterator::TypedIterable::set_raw_name') + facts.inst_keys('rr_iterator::TypedIterable::delete')
+    if entries is None:
+        entries = ['parsed_packet::ParsedPacket::insert_rr'] + facts.inst_keys('rr_iterator::TypedIterable::set_raw_name') + facts.inst_keys('rr_iterator::TypedIterable::delete')
     n = 0
     for key in entries:
         f = facts.fn(key)
@@ -205,8 +207,8 @@ def pointer_free_rule(ctx, facts, cfg):
             ctx.violation(rid, key, 'splice-while-maybe-compressed', '%s can resize the packet or overwrite name bytes (at %s) on a path where maybe_compressed is not known to be false: '
                           'compression pointers of *other* records into the moved / overwritten bytes would then designate something else' % (key.split('::')[-1].split('@')[0], site),
                           site=site, config=cfg)
-    if n < 5:
-        ctx.violation(rid, '<floor>', 'splicing operations', 'found %d of insert_rr / set_raw_name x2 / delete x2' % n, kind='below-floor')
+    if n < floor:
+        ctx.violation(rid, '<floor>', 'splicing operations', 'found %d splicing operations, expected %d' % (n, floor), kind='below-floor')
 
 
 def run(ctx):
@@ -222,6 +224,8 @@ def run(ctx):
         from rules import C11
         C11.delete_protocol_rule(ctx, facts, cfg, 'C09.d-delete')
         C11.classification_rule(ctx, facts, cfg, 'C09.d-sections')
+        from rules import C10
+        C10.clean_failure_rule(ctx, facts, cfg, 'C09.g', ['parsed_packet::ParsedPacket::insert_rr', 'parsed_packet::ParsedPacket::insert_rr_from_string'], floor=2)
         # ---------------- C09.b --------------------------------------------------
         layout.check_writers(ctx, facts, cfg, 'C09.b')
         for key in facts.inst_keys('rr_iterator::RdataIterable::rr_ip'):
